@@ -25,7 +25,7 @@ func runEnumerated(t *testing.T, property, check, rule string, n int, mk func(i 
 		c := mk(i)
 		c.Property, c.Check = property, check
 		st.Case()
-		if msg := fn(c, st); msg != "" {
+		if msg := safeRun(fn, c, st); msg != "" {
 			Fail(t, c, "%s", msg)
 		}
 	}
